@@ -27,6 +27,14 @@ def main():
     t0 = time.time()
     try:
         code = mod.run(a.tier, seed, a.replay)
+    except lib.GeneratedCodeBroken as e:
+        # the generator of the working tree emitted bindings that do not compile: nothing this property promises about
+        # generated code can hold
+        v = lib.Verdict(a.prop)
+        for f in e.files[:5]:
+            v.add("%s/generated-bindings-do-not-compile/%s" % (a.prop, f), str(e)[:1500], dict(file=f))
+        code, _ = v.finish()
+        sys.exit(code)
     except lib.Broken as e:
         print("CHECK-BROKEN property=%s: %s" % (a.prop, e), file=sys.stderr)
         sys.exit(2)
